@@ -9,43 +9,43 @@ TEXT = {
         "level": "Exploration by runtime monitoring: every BDD builder call in generated operation histories is observed at the API boundary and compared with an independent truth-table oracle; all 3-variable functions x all orders x both caches are enumerated completely, larger spaces (<=12 variables, histories up to 2000 ops, tiny hook capacities so growth and eviction happen constantly) are sampled. Right level because the property is a functional-correctness claim over unbounded programs: an oracle over executions decides each execution exactly, reach comes from volume and hostile configurations.",
         "design_ref": "DESIGN.md section 4, C01",
         "note": NOTE,
-        "technique": "runtime monitor: truth-table reference model over generated operation histories (bounded-exhaustive + random + long hostile), history-independence re-walks, standard-triple side monitor",
+        "technique": "runtime monitor: truth-table reference model over generated operation histories (bounded-exhaustive + random + long hostile), history-independence re-walks, standard-triple side monitor; wide regime (history variables spread over up to 200 labels)",
     },
     "C02": {
         "level": "Exploration by runtime monitoring: canonicity is decided per execution by a map from oracle truth table to first pointer (iff over all pairs in O(1) per event), a structural invariant walker over every reachable node, a table-membership probe re-run after every growth, and a direct set-model monitor of the robin-hood table under adversarial hashes and 2..16-slot initial capacities; Miri/ASan legs cover the unsafe get_or_insert across growth.",
         "design_ref": "DESIGN.md section 4, C02",
         "note": NOTE,
-        "technique": "runtime monitor: canonicity map keyed by oracle truth table + structural invariant walker + unique-table set model under adversarial hashes (feature-guarded capacity hook); Miri and AddressSanitizer legs",
+        "technique": "runtime monitor: canonicity map keyed by oracle truth table + structural invariant walker + unique-table set model under adversarial hashes (feature-guarded capacity hook); Miri and AddressSanitizer legs; wide regime (history variables spread over up to 200 labels)",
     },
     "C03": {
         "level": "Exploration by runtime monitoring: every SDD builder call in generated histories is compared with a truth-table oracle through an independent structural walker; all vtrees on 3 and 4 leaves are enumerated, larger vtrees of every family and both compression modes are sampled, tables start tiny so they grow constantly, and earlier results are re-evaluated periodically.",
         "design_ref": "DESIGN.md section 4, C03",
         "note": NOTE,
-        "technique": "runtime monitor: truth-table reference model over generated SDD operation histories, all small vtrees enumerated, apply-case coverage recorded",
+        "technique": "runtime monitor: truth-table reference model over generated SDD operation histories, all small vtrees enumerated, apply-case coverage recorded; wide regime (vtree variables spread over up to 200 labels)",
     },
     "C04": {
         "level": "Exploration by runtime monitoring: a structural invariant walker checks every decision node reachable from every result (partition of primes, vtree scoping of primes and subs, compression, trimming) from oracle truth tables, and a canonicity map keyed by truth table covers results and all sub-nodes in both polarities; unique tables start at 2..64 slots (hook) so growth is constant; Miri leg on a small history.",
         "design_ref": "DESIGN.md section 4, C04",
         "note": NOTE,
-        "technique": "runtime monitor: structural invariant walker at every quiescent point + canonicity map keyed by oracle truth table; Miri leg",
+        "technique": "runtime monitor: structural invariant walker at every quiescent point + canonicity map keyed by oracle truth table; Miri leg; wide regime (vtree variables spread over up to 200 labels)",
     },
     "C05": {
         "level": "Exploration by runtime monitoring: each compilation (CNF, expression, dtree plan, compile-under-assignment) on BDD and SDD builders under random orders / vtrees is compared with the harness's own evaluation of the input on all assignments, plus pointer-equality between the alternative routes inside one builder.",
         "design_ref": "DESIGN.md section 4, C05",
         "note": NOTE,
-        "technique": "runtime monitor: differential check of compiled diagrams against brute-force evaluation of the input, and pointer-equality across compilation routes",
+        "technique": "runtime monitor: differential check of compiled diagrams against brute-force evaluation of the input, and pointer-equality across compilation routes; wide regime (labels spread over up to 200 indices) and several inputs per builder with drift re-walks",
     },
     "C06": {
         "level": "Exploration by runtime monitoring: each top-down compilation (both node stores) is compared with brute-force evaluation of the clause list, the false-constant/UNSAT correspondence and per-path single decision are checked structurally, and condition() on the result and on its negation is compared with the cofactor for every literal; all decision orders are enumerated for CNFs over <= 4 variables.",
         "design_ref": "DESIGN.md section 4, C06",
         "note": NOTE,
-        "technique": "runtime monitor: differential check against brute-force CNF semantics + structural path invariant + conditioning oracle, workload biased to component-cache hits and late UNSAT",
+        "technique": "runtime monitor: differential check against brute-force CNF semantics + structural path invariant + conditioning oracle, workload biased to component-cache hits and late UNSAT; wide regime and several CNFs per builder with drift re-walks",
     },
     "C09": {
         "level": "Exploration by runtime monitoring of decide/pop histories: an online checker compares every observable solver state with brute-force entailment over all models, an independent naive propagator, a recorded-state stack (pop restore) and a per-solver hash->residual map. Right level because watched-literal bugs depend on the history of falsifications across backtracking, which only long random walks reach.",
         "design_ref": "DESIGN.md section 4, C09",
         "note": NOTE,
-        "technique": "runtime monitor: online trace checker over decide/pop histories against brute-force entailment, reference propagator and recorded pre-decision states (read-only model hook)",
+        "technique": "runtime monitor: online trace checker over decide/pop histories against brute-force entailment, reference propagator and recorded pre-decision states (read-only model hook); wide regime (CNF variables spread over up to 200 labels)",
     },
     "C07": {
         "level": "Exploration by runtime monitoring: every count returned by the library on generated BDDs / SDDs / decision-DNNFs in all nine shipped semiring instances is compared for exact equality with the defining sum over models computed from the truth table in exact arithmetic; BDDs also under arbitrary weights against the unsmoothed count; evaluate() against the truth table on every assignment.",
@@ -57,25 +57,25 @@ TEXT = {
         "level": "Exploration by runtime monitoring: each smooth() result is checked for function preservation, for the per-path 'each level exactly once, in order' invariant by a structural path walker, and for exact agreement of weighted and unweighted counts with brute force under non-normalised weights; all 3-variable functions x orders enumerated.",
         "design_ref": "DESIGN.md section 4, C08",
         "note": NOTE,
-        "technique": "runtime monitor: structural path-invariant walker + exact brute-force counting oracle on smoothed diagrams (bounded-exhaustive + random level-skipping inputs)",
+        "technique": "runtime monitor: structural path-invariant walker + exact brute-force counting oracle on smoothed diagrams (bounded-exhaustive + random level-skipping inputs); several smooth calls per builder over different numbers of levels",
     },
     "C13": {
         "level": "Exploration by runtime monitoring with large exhaustive parts: the algebraic laws are asserted on every triple of finite grids / boundary sets per type and per exported prime, results are compared with independent reference arithmetic, in both build profiles.",
         "design_ref": "DESIGN.md section 4, C13",
         "note": NOTE,
-        "technique": "runtime monitor: algebraic-law assertions and reference-arithmetic comparison over exhaustive grids and boundary residues, in overflow-checked and unchecked builds",
+        "technique": "runtime monitor: algebraic-law assertions and reference-arithmetic comparison over exhaustive grids and boundary residues, in overflow-checked and unchecked builds; bit-length grid over all operand bit lengths for the seven exported primes",
     },
     "C14": {
         "level": "Exploration by runtime monitoring: every order, dtree, dtree-derived vtree and vtree-manager table the library produces for generated CNFs / trees is inspected structurally and compared with the definition recomputed by the harness; all vtree shapes on <= 6 leaves, all node pairs for lca, and all elimination orders for small CNFs are enumerated.",
         "design_ref": "DESIGN.md section 4, C14",
         "note": NOTE,
-        "technique": "runtime monitor: structural invariant checkers against definitions recomputed from the input (orders, dtree var sets and cutsets, vtree index/lca/prime tables)",
+        "technique": "runtime monitor: structural invariant checkers against definitions recomputed from the input (orders, dtree var sets and cutsets, vtree index/lca/prime tables); library vtree constructors, label sets with gaps, vtrees up to 179 nodes, CNFs over up to 200 labels",
     },
     "C15": {
         "level": "Exploration by runtime monitoring: CNF utilities, partial-model / variable-set bookkeeping and the residual hasher are driven with generated inputs and operation histories and compared with set-theoretic reference models (truth tables, HashMap/HashSet, exact sums, residual families).",
         "design_ref": "DESIGN.md section 4, C15",
         "note": NOTE,
-        "technique": "runtime monitor: reference-model comparison (truth table, map/set models, exact brute-force sum) and a functional-dependency checker hash<->residual over push/decide/pop histories",
+        "technique": "runtime monitor: reference-model comparison (truth table, map/set models, exact brute-force sum) and a functional-dependency checker hash<->residual over push/decide/pop histories; partial models / variable sets over up to 300 variables",
     },
     "C10": {
         "level": "Exploration by runtime monitoring of query histories: interleaved queries of different memo types on pools of diagrams sharing nodes are checked for repeatability, for agreement with the same query on a freshly rebuilt copy, and a full scratch scan of every reachable node runs after every public call; rsdd's own debug assertions are compiled in; Miri leg for the boxed-Any scratch traffic.",
@@ -87,25 +87,25 @@ TEXT = {
         "level": "Exploration by runtime monitoring: hashes returned by the library for many representations of one function are compared with the defining sum computed independently from the truth table (which also makes them equal to each other), negation and cached-vs-recomputed are checked, and the hash-identified builders are driven through operation histories with an eq()-on-equal-functions monitor (all primes) and a truth-table oracle (64-bit prime).",
         "design_ref": "DESIGN.md section 4, C11",
         "note": NOTE,
-        "technique": "runtime monitor: defining-sum reference model for hashes across representations + operation-history monitor of the semantic builders (equality on equal functions; truth-table oracle over the 64-bit field)",
+        "technique": "runtime monitor: defining-sum reference model for hashes across representations + operation-history monitor of the semantic builders (equality on equal functions; truth-table oracle over the 64-bit field); builder hash accessors; semantic SDD builders over spread labels",
     },
     "C12": {
         "level": "Exploration by runtime monitoring: every optimisation query (marginal MAP, MEU, generic branch and bound in both semirings) on generated BDDs is compared for exact equality with exhaustive maximisation computed by the oracle from the truth table, and the returned model is re-evaluated by the oracle; near-ties and tiny magnitudes are generated deliberately because pruning errors depend on the relation between sibling bounds.",
         "design_ref": "DESIGN.md section 4, C12",
         "note": NOTE,
-        "technique": "runtime monitor: exhaustive-maximisation reference model with exact dyadic arithmetic over generated BDDs, query sets, orders and weights (near-tie and tiny-magnitude workloads)",
+        "technique": "runtime monitor: exhaustive-maximisation reference model with exact dyadic arithmetic over generated BDDs, query sets, orders and weights (near-tie and tiny-magnitude workloads); exactly tied optima (coarse weights), prelude queries in the same builder, wide regime",
     },
     "C16": {
         "level": "Exploration by runtime monitoring: the lossy cache is checked against a map model with permitted forgetting under adversarial hashes and tiny capacities; BDD builders with both cache kinds replay identical histories and must return identical canonical diagrams; warm SDD caches are compared with cold ones. Floors make sure overwrites, growth and hits were actually observed (feature-guarded capacity hook).",
         "design_ref": "DESIGN.md section 4, C16",
         "note": NOTE,
-        "technique": "runtime monitor: map model with permitted forgetting over insert/get histories + paired-builder differential (all-cache vs tiny lossy cache) + warm-vs-cold SDD replay",
+        "technique": "runtime monitor: map model with permitted forgetting over insert/get histories + paired-builder differential (all-cache vs tiny lossy cache) + warm-vs-cold SDD replay; ITE-cache adapters driven directly through the IteTable trait with colliding hashes",
     },
     "C17": {
         "level": "Exploration by runtime monitoring: generated DIMACS texts and s-expressions are parsed by rsdd and compared with the harness's own evaluation under the documented numbering; print/re-parse round trips are compared as clause sets; JSON serialisations of BDDs, SDDs and vtrees are read by an independent Python reader and compared with oracle truth tables / trees.",
         "design_ref": "DESIGN.md section 4, C17",
         "note": NOTE + " The Python reader (pyoracle/ddjson.py) is part of the trusted base.",
-        "technique": "runtime monitor: generated-text round trips against an independent evaluator + independent (Python) reader of the JSON node tables compared with oracle truth tables",
+        "technique": "runtime monitor: generated-text round trips against an independent evaluator + independent (Python) reader of the JSON node tables compared with oracle truth tables; large DIMACS variable numbers, diagrams over spread labels, LogicalExpr::eval",
     },
     "C19": {
         "level": "Exploration by runtime monitoring at the process boundary: the real binaries built from /repo are run on generated formula / weights / config / DIMACS files and their stdout is compared with exact brute-force counts (fractions) and, for the converters, with the input's truth table through the independent JSON reader.",
@@ -117,6 +117,6 @@ TEXT = {
         "level": "Exploration by runtime monitoring at the ABI boundary: the exported extern \"C\" symbols are called like a C client would, every call is mirrored natively and checked against the truth-table oracle, diagrams are observed only through the C accessors, counts are compared bit-for-bit; the same workload runs under Miri, AddressSanitizer and valgrind memcheck in the thorough tier.",
         "design_ref": "DESIGN.md section 4, C18",
         "note": NOTE + " The extern declarations in the harness are the stand-in for the C header.",
-        "technique": "runtime monitor: differential call-sequence checking (C ABI vs native vs truth-table oracle) + Miri / AddressSanitizer / valgrind memcheck legs",
+        "technique": "runtime monitor: differential call-sequence checking (C ABI vs native vs truth-table oracle) + Miri / AddressSanitizer / valgrind memcheck legs; weights overwritten between counts on the same C tables",
     },
 }
